@@ -683,7 +683,16 @@ func (cs *crashRun) judgeCrashState(sd, what string, before, after *dirState, en
 	// except the merge target of a removal
 	now := readDirState(sd) // note: after reopen + retry + close
 	_ = now
-	if rec.rev < before.rev || (after.ok && rec.rev > after.rev && rec.rev > before.rev) {
+	lo, hi := before.rev, before.rev
+	if after.ok {
+		if after.rev < lo {
+			lo = after.rev // (an explicit set may lower it)
+		}
+		if after.rev > hi {
+			hi = after.rev
+		}
+	}
+	if rec.rev < lo || rec.rev > hi {
 		cs.viol("crash-state-revision-counter", "%s: revision counter after reopen %d, before %d, after %d", what, rec.rev, before.rev, after.rev)
 		return
 	}
@@ -744,6 +753,15 @@ func (cs *crashRun) judgeFinal(dir, what string, fin, want, other *dirState, suc
 		if !success {
 			okData, _ = blockwiseOldOrNew(rec.live, want.live, other.live)
 		}
+	}
+	// C10: the counter counts applied writes exactly
+	if success && rec.rev != want.rev {
+		cs.viol("crash-state-revision-counter", "%s, but the revision counter after reopen is %d, the completed operation's is %d", what, rec.rev, want.rev)
+		return
+	}
+	if !success && cs.kind == "w" && rec.rev != want.rev && !(other.ok && bytes.Equal(rec.live, other.live) && rec.rev == other.rev) {
+		cs.viol("crash-state-revision-counter", "%s, but the revision counter after reopen is %d although the write was not applied (before %d)", what, rec.rev, want.rev)
+		return
 	}
 	if success {
 		if !okChain {
